@@ -1,6 +1,6 @@
 """Mutation harness for X02: the quick universes of checks/x02.py (cached), driver and both trace
 configurations against $VERIF_REPO; no model run.  Prints the failing clauses / signatures beyond
-the two known findings.      usage: VERIF_REPO=<tree> python X02_mutation_harness.py <label>"""
+the two known findings.      usage: VERIF_REPO=<tree> python X02_mutation_harness.py <label> [kinds,comma,separated]"""
 import collections, json, os, sys
 sys.path.insert(0, '/verif')
 os.environ.setdefault("PYTHONHASHSEED", "0")
@@ -12,18 +12,22 @@ from drivers import x02_ttlrange as drv
 label = sys.argv[1]
 CACHE = '/verif/.work/x02_mut_gens.json'
 ctx = core.Ctx("X02", "quick", 0, "model_checking")
+os.rmdir(ctx.work)
 ctx.work = '/verif/.work/x02_mut_%s' % label
 os.makedirs(ctx.work, exist_ok=True)
 if os.path.exists(CACHE):
     g = json.load(open(CACHE))
 else:
     g = {}
-    for kind in ("ttl", "make", "range", "srow", "s32cmp", "s32add"):
+    for kind in ("ttl", "make", "via", "range", "srow", "s32cmp", "s32add"):
         cfg = ctx.cfg("gen_%s.cfg" % kind, x02.GEN_CFG.format(kind=kind, **x02.TIERS["quick"]))
         g[kind] = [b[0] for b in ctx.generate("Gen_TtlRange", cfg, count=False)]
     json.dump(g, open(CACHE, 'w'))
+only = sys.argv[2].split(",") if len(sys.argv) > 2 else list(g)
 jobs = []
 for kind, items in g.items():
+    if kind not in only:
+        continue
     n = x02.CHUNK[kind]
     jobs += [("%s%d" % (kind, i), kind, items[i:i + n]) for i in range(0, len(items), n)]
 traces = ctx.pmap(drv.run_job, jobs)
